@@ -116,6 +116,8 @@ def k_glue(pat: str, loc: str) -> str:
         flt.Filter(pat).matches(loc)
     finally:
         flt.fnmatch = saved
+    if len(REC) == 0:
+        return rt.not_applicable('fnmatch-seam-not-used', 'Filter(%r).matches(%r) did not call filter.fnmatch.*: matching happens somewhere else now' % (pat, loc))
     if len(REC) != 1:
         return rt.fail('C12:matcher-not-called-once', 'pattern %r location %r: calls %r' % (pat, loc, REC))
     fn, subj, p = REC[0]
